@@ -201,15 +201,47 @@ fn enum_long(_t: Tier, shard: usize, n: usize, f: &mut dyn FnMut(Soup) -> bool) 
     }
 }
 
+// ---- names inside messages: question, owner and RDATA positions, parsing must resume after the in-place bytes
+
+fn check_in_packet(input: &super::c10::ParseIn, case: &mut Case) -> Result<(), Fail> {
+    // the record is reference-encoded with foreign compression (pointers also inside RRSIG, NSEC, SRV ... names),
+    // followed by another record: a name that is decoded wrongly, or after which parsing resumes at the wrong
+    // offset, changes the observed fields
+    super::c10::check_parse(input, case).map_err(|f| Fail::new(format!("c06:in-packet:{}", f.sig.trim_start_matches("c10:")), f.msg))
+}
+
+fn check_in_large(input: &(crate::gen::Sharing, Vec<u8>), case: &mut Case) -> Result<(), Fail> {
+    let p = input.0.assemble();
+    let opts = if input.1.is_empty() { EncOpts::compressed() } else { EncOpts::foreign(input.1.clone()) };
+    let m = encode_message(&p, &opts);
+    if m.len() > 8192 {
+        case.class("over-8k");
+    }
+    if m.len() > 16384 {
+        case.class("over-16k");
+    }
+    let pk = parse(&m)?.map_err(|e| Fail::new("c06:in-packet-large:rejected", format!("a well-formed {}-byte message with pointers to offsets up to 16383 was rejected: {:?}", m.len(), e)))?;
+    let o = lib("observe", || crate::bridge::observe(&pk))?;
+    case.nontrivial = m.len() > 8192;
+    ensure!(o == p, "c06:in-packet-large:names", "{}-byte message: {}", m.len(), crate::bridge::diff(&p, &o));
+    Ok(())
+}
+
+fn large_strategy(t: Tier) -> BoxedStrategy<(crate::gen::Sharing, Vec<u8>)> {
+    (crate::gen::sharing(t), vec(any::<u8>(), 0..4)).boxed()
+}
+
 pub fn def() -> CheckDef {
     CheckDef {
         id: "C06",
-        rule: "library name decoder (hook Name::verif_parse) vs an independent RFC 1035 4.1.4 decoder with a visited set: (1) bounded-exhaustive: every buffer of length <= 6 (7 thorough) over {00,01,02,03,04,05,3f,40,80,c0,ff,'a'} decoded at every start offset; (2) names of 250..=258 wire bytes from 5 label sizes, direct and through a pointer; (3) random 'soups' of labels (1..4, 30..40, 61..63 bytes), terminators, pointers to earlier pieces, absolute pointers (into the prefix, forward, out of range) and reserved-type octets, decoded at every piece start. Oracle: library Ok => same labels and same resume offset, labels 1..=63, wire <= 255; reference error (cycle, out of range, reserved type, too long, truncated) => library Err; reference Ok with only backward pointers and <= 32 hops => library Ok. Non-trivial = the reference decode met a pointer, >= 2 labels or an error; evaluations count (buffer, offset) pairs",
+        rule: "library name decoder (hook Name::verif_parse) vs an independent RFC 1035 4.1.4 decoder with a visited set: (1) bounded-exhaustive: every buffer of length <= 6 (7 thorough) over {00,01,02,03,04,05,3f,40,80,c0,ff,'a'} decoded at every start offset; (2) names of 250..=258 wire bytes from 5 label sizes, direct and through a pointer; (3) random 'soups' of labels (1..4, 30..40, 61..63 bytes), terminators, pointers to earlier pieces, absolute pointers (into the prefix, forward, out of range) and reserved-type octets, decoded at every piece start; (4) through Packet::parse: every record type reference-encoded with foreign compression (pointers inside all RDATA names) followed by another record, and suffix-sharing messages up to 64 KiB whose pointers reach offsets up to 16383, observed field by field. Oracle: library Ok => same labels and same resume offset, labels 1..=63, wire <= 255; reference error (cycle, out of range, reserved type, too long, truncated) => library Err; reference Ok with only backward pointers and <= 32 hops => library Ok. Non-trivial = the reference decode met a pointer, >= 2 labels or an error; evaluations count (buffer, offset) pairs",
         assumptions: vec!["forward pointers and chains longer than 32 hops may be refused (no claim)"],
         sections: vec![
             Box::new(ReplayOnly { name: "fuzz-bytes", check: check_raw }),
             Box::new(EnumSection { name: "exhaustive", rule: "all short buffers x all offsets", enumerate: enum_buffers, check: check_buffer, exhaustive: true }),
             Box::new(EnumSection { name: "boundary-255", rule: "names around 255 bytes", enumerate: enum_long, check: check_soup, exhaustive: true }),
+            Box::new(PropSection { name: "in-packet", rule: "names in question / owner / RDATA positions of every type", strategy: super::c10::parse_strategy, cases: (100_000, 1_500_000), check: check_in_packet }),
+            Box::new(PropSection { name: "in-packet-large", rule: "pointers to offsets up to 16383 in large messages", strategy: large_strategy, cases: (30_000, 300_000), check: check_in_large }),
             Box::new(PropSection { name: "soups", rule: "random name soups", strategy: soup_strategy, cases: (300_000, 4_000_000), check: check_soup }),
         ],
     }
